@@ -3,7 +3,7 @@
 #   - patch applies, tree builds, existing tests of touched packages pass (root package: full suite unless SKIP_ROOT=1)
 #   - demo fails with the patch and passes without it
 P="$1"; N="$2"; TAGS="$3"
-WT=/tmp/wt_$P; M=/tmp/mut_$P
+WT=${WT_DIR:-/tmp/wt_$P}; M=${MUT_DIR:-/tmp/mut_$P}
 export GOFLAGS=-mod=mod GOPROXY=off GOSUMDB=off
 cd $WT || exit 2
 git checkout -q -- . && git clean -fdq
